@@ -239,6 +239,11 @@ theorem quiet_step {cfg : Cfg} {s : State} {sid : Nat} (hq : Quiet s sid) (st : 
       intro d
       cases hr' : (flushStepS s.shuttingDown (s.sess j)).2 <;> simp [evFlush, hr']
       intro h; exact absurd h hj
+  | ioCloseCb j =>
+    simp only [step]
+    split
+    · exact ⟨⟨by simpa using hx, by simpa [pendO] using hpo⟩, by simp⟩
+    · exact ⟨⟨hx, hpo⟩, by simp⟩
   | fence n =>
     simp only [step]
     exact ⟨⟨wake_quiet n hx, by simpa [pendO] using hpo⟩, by simp⟩
@@ -255,5 +260,94 @@ theorem quiet_run {cfg : Cfg} {sid : Nat} : ∀ (steps : List Step) (s : State),
     have h1 := quiet_step (cfg := cfg) hq st hd.1
     simp only [List.mem_append, not_or]
     exact ⟨h1.2 d, ih _ h1.1 hd.2 d⟩
+
+/-! ## T8 measured from the close CALLBACK (FC03c): the handler marks the session closed BEFORE it invokes the callbacks -/
+
+/-- while the close handler is between marking `sid` closed (`ioClose`) and invoking its close callbacks (`ioCloseCb`), the session is
+already quiet — unless a flush of it was in progress when the close was processed (`closeGrace`) -/
+def CloseK (s : State) : Prop := ∀ sid, s.closePend = some sid → s.closeGrace = false → Quiet s sid
+
+theorem CloseK_init : CloseK init := by
+  intro sid h; simp [init] at h
+
+/-- only `ioClose` / `ioCloseCb` touch the close handler's program counter -/
+theorem step_closePend (cfg : Cfg) (s : State) (st : Step) (h1 : ∀ j, st ≠ .ioClose j) (h2 : ∀ j, st ≠ .ioCloseCb j) :
+    (step cfg s st).1.closePend = s.closePend ∧ (step cfg s st).1.closeGrace = s.closeGrace := by
+  cases st with
+  | ioClose j => exact absurd rfl (h1 j)
+  | ioCloseCb j => exact absurd rfl (h2 j)
+  | ioData j c => simp only [step]; split <;> exact ⟨rfl, rfl⟩
+  | ioDeliver => simp only [step]; split <;> exact ⟨rfl, rfl⟩
+  | recvEnter j l => exact ⟨rfl, rfl⟩
+  | recvWake j t => exact ⟨rfl, rfl⟩
+  | setMode j m => exact ⟨rfl, rfl⟩
+  | flushStep j => exact ⟨rfl, rfl⟩
+  | fence n => exact ⟨rfl, rfl⟩
+
+theorem step_closeK {cfg : Cfg} {s : State} (h : CloseK s) (st : Step) (hok : ok s st = true) : CloseK (step cfg s st).1 := by
+  by_cases hc : ∃ j, st = .ioClose j
+  · obtain ⟨j, rfl⟩ := hc
+    have hk : (s.sess j).dead = false ∧ s.ioPend = none := by simpa [ok] using hok
+    intro sid hp hgr
+    simp only [step, hk.2] at hp hgr ⊢
+    have hsj : j = sid := by simpa using hp
+    subst hsj
+    have hf : (s.sess j).flush = none := by cases hfl : (s.sess j).flush <;> simp_all
+    have hq := ioCloseS_quiet cfg (s.sess j) hf
+    have hqs : QuietS (ioCloseS cfg (s.sess j)) := Or.inl hq.1
+    exact ⟨by simpa [closeSess] using hqs, by simp [pendO]⟩
+  · by_cases hb : ∃ j, st = .ioCloseCb j
+    · obtain ⟨j, rfl⟩ := hb
+      intro sid hp hgr
+      simp only [step] at hp hgr ⊢
+      split at hp
+      · simp at hp
+      · rename_i hne
+        simp only [hne, if_false] at hgr ⊢
+        exact h sid hp hgr
+    · have h1 : ∀ j, st ≠ .ioClose j := fun j e => hc ⟨j, e⟩
+      have h2 : ∀ j, st ≠ .ioCloseCb j := fun j e => hb ⟨j, e⟩
+      obtain ⟨e1, e2⟩ := step_closePend cfg s st h1 h2
+      intro sid hp hgr
+      rw [e1] at hp; rw [e2] at hgr
+      exact (quiet_step (h sid hp hgr) st hok).1
+
+theorem run_closeK {cfg : Cfg} : ∀ (steps : List Step) (s : State), CloseK s → Disciplined cfg s steps → CloseK (run cfg s steps).1 := by
+  intro steps
+  induction steps with
+  | nil => intro s h _; simpa [run_nil] using h
+  | cons st rest ih =>
+    intro s h hd
+    rw [run_cons]
+    exact ih _ (step_closeK h st hd.1) hd.2
+
+theorem not_close_evRecv (sid j : Nat) (r : Option RecvRes) : Ev.closeCb sid ∉ evRecv j r := by
+  cases r <;> simp [evRecv]
+
+theorem not_close_evMode (sid j : Nat) (r : Option Bool) : Ev.closeCb sid ∉ evMode j r := by
+  cases r <;> simp [evMode]
+
+theorem not_close_evFlush (sid j : Nat) (r : FlushOut) : Ev.closeCb sid ∉ evFlush j r := by
+  cases r <;> simp [evFlush]
+
+/-- the close callback of `sid` is invoked by exactly one kind of step: `ioCloseCb sid`, and only while the handler is past the
+section that marked `sid` closed -/
+theorem closeCb_emitted {cfg : Cfg} {s : State} {st : Step} {sid : Nat} (hev : Ev.closeCb sid ∈ (step cfg s st).2) :
+    st = .ioCloseCb sid ∧ s.closePend = some sid := by
+  cases st with
+  | ioData j c => simp only [step] at hev; split at hev <;> simp at hev
+  | ioDeliver => simp only [step] at hev; split at hev <;> simp at hev
+  | ioClose j => simp only [step] at hev; split at hev <;> simp at hev
+  | ioCloseCb j =>
+    simp only [step] at hev
+    split at hev
+    · rename_i hp
+      simp at hev; subst hev; exact ⟨rfl, hp⟩
+    · simp at hev
+  | recvEnter j l => simp only [step] at hev; exact absurd hev (not_close_evRecv sid j _)
+  | recvWake j t => simp only [step] at hev; exact absurd hev (not_close_evRecv sid j _)
+  | setMode j m => simp only [step] at hev; exact absurd hev (not_close_evMode sid j _)
+  | flushStep j => simp only [step] at hev; exact absurd hev (not_close_evFlush sid j _)
+  | fence n => simp [step] at hev
 
 end Iora.SyncRecv
